@@ -1,8 +1,11 @@
 (** C18 — generated Merkle proofs commit to the original tree and reveal the
-    value.  Statements only.  [H] is any hash function with 32-byte output. *)
+    value.  Statements only.  [H] is any hash function with 32-byte output.
+    Source trees: [prunable_tree] = ordinary and library cells and pruned
+    branches of any level mask (the body of an earlier proof being narrowed);
+    no Merkle cell (pruneCells refuses those with an error). *)
 From Coq Require Import List NArith Arith Bool.
 From Tongo Require Import Lib.Bits Lib.Res Spec.Sha256 Model.BocParse Model.CellHash Spec.ReprHash
-  Model.Merkle Proofs.MerkleP.
+  Model.Merkle Proofs.MerkleP Proofs.C18History.
 Import ListNotations.
 
 Section C18.
@@ -11,11 +14,11 @@ Hypothesis H_len : forall x, length (H x) = 32%nat.
 Hypothesis H_bytes : forall x, byte_list (H x).
 
 (** The pruned tree has, at level zero, exactly the hash and depth of the
-    original tree — for every tree without pruned/Merkle cells and every set of
-    pruned positions. *)
+    original tree — for every tree without Merkle cells (pruned branches of the
+    source, of any level mask, are leaves) and every set of pruned positions. *)
 Theorem C18_prune_preserves_level0 :
   forall c pruned path c',
-  plain_tree c -> prune H pruned path c = Ok c' -> hd_at H c' 0 = hd_at H c 0.
+  prunable_tree c -> prune H pruned path c = Ok c' -> hd_at H c' 0 = hd_at H c 0.
 Proof. exact (prune_level0 H H_len H_bytes). Qed.
 
 (** Every pruned-branch cell is 01 01 | hash_0 | depth_0 of the subtree it replaces. *)
@@ -30,7 +33,7 @@ Proof. exact (pruned_branch_stores H). Qed.
     and depth of the original root, and its child has that level-0 hash/depth. *)
 Theorem C18_proof_commits :
   forall root pruned p,
-  plain_tree root -> create_proof H pruned root = Ok p ->
+  prunable_tree root -> create_proof H pruned root = Ok p ->
   exists h d body,
     hd_at H root 0 = Ok (h, d) /\
     p = Cell true T_MPROOF 0 (bits_of 8 3 ++ bytes_to_bits h ++ bits_of 16 d) [body] /\
@@ -49,6 +52,18 @@ Theorem C18_unpruned_path_keeps_data :
              length (cell_refs x') = length (cell_refs x).
 Proof. exact (unpruned_path_keeps_data H). Qed.
 
+(** Trees of ordinary/library cells only (the class of the first version of
+    these theorems) are prunable trees. *)
+Theorem C18_ordinary_trees_covered : forall c, plain_tree c -> prunable_tree c.
+Proof. exact plain_prunable. Qed.
+
+(** The level-0 answer a pruned branch of this prover stores is always a
+    32-byte hash and a 16-bit depth, whatever cell it replaces (for a pruned
+    branch of the source: the hash and depth IT stores for level 0). *)
+Theorem C18_level0_answer_shape :
+  forall c h d, hd_at H c 0 = Ok (h, d) -> length h = 32%nat /\ byte_list h /\ (d < 65536)%N.
+Proof. exact (hd_at0_shape H H_len H_bytes). Qed.
+
 (** A proof is produced only when the labels and branch bits along the walk
     spell exactly the requested key: asking for an absent key is an error. *)
 Theorem C18_proof_only_for_spelled_key :
@@ -65,7 +80,46 @@ Proof.
   destruct (short (length key) prefix); [discriminate|].
   destruct (bits_eqb (firstn (length key) prefix) key); [reflexivity|discriminate].
 Qed.
+
+(** The proof for a key contains the leaf of that key with its data bits: the
+    dictionary cell [x] at the end of the walk (an ordinary cell whose label
+    ends the key and whose remaining bits [rest] hold the value) is at the same
+    position of the proof body with the same bits — every position the walk
+    prunes is a sibling at a fork of that path. *)
+Theorem C18_key_proof_reveals :
+  forall root key vbits p,
+  prove_key H root key vbits = Ok p ->
+  exists data body leaf x x' m lab rest,
+    p = Cell true T_MPROOF 0 data [body] /\
+    subcell root leaf = Some x /\ cell_special x = false /\
+    load_label m (cell_bits x) = Some (lab, rest) /\ short vbits rest = false /\
+    subcell body leaf = Some x' /\ cell_bits x' = cell_bits x.
+Proof. exact (key_proof_reveals H). Qed.
+
+(** History independence: for every sequence of operations on ONE prover
+    (proofs for keys, failing attempts, cursor walks kept or abandoned) the
+    result of the i-th operation is the result of that operation alone on a
+    fresh prover.  Immediate in the model, because the model of the prover has
+    no state besides the root (a cursor owns its pruned set); the content is
+    the correspondence: the Go side runs the whole history on one
+    *boc.MerkleProver and every result is compared with [run_op]. *)
+Theorem C18_history_independent :
+  forall same root before o after,
+  nth_error (prover_run H same root (before ++ o :: after)) (length before) = Some (run_op H same root o) /\
+  prover_run H same root [o] = [run_op H same root o].
+Proof. exact (history_independent H). Qed.
 End C18.
+
+(** The requirement is not vacuous: a prover that owns the pruned set and
+    shares it between cursors gives a right first proof and a wrong second one. *)
+Theorem C18_shared_pruned_set_refuted :
+  pruned_at (nth_error (prover_run sha256 path_eqb wit_root wit_ops) 1) [1%nat] = Some false /\
+  pruned_at (nth_error (shared_run sha256 wit_root [] wit_ops) 1) [1%nat] = Some true /\
+  nth_error (shared_run sha256 wit_root [] wit_ops) 1 <>
+  nth_error (map (run_op sha256 path_eqb wit_root) wit_ops) 1.
+Proof. exact shared_pruned_set_refuted. Qed.
+
+Print Assumptions C18_key_proof_reveals.
 Print Assumptions C18_prune_preserves_level0.
 Print Assumptions C18_proof_commits.
 
@@ -77,3 +131,25 @@ Example C18_premises_satisfiable :
   plain_tree root /\
   exists p, create_proof sha256 (fun path => match path with [1%nat] => true | _ => false end) root = Ok p.
 Proof. cbn zeta. split; [cbn; repeat split|]. vm_compute. eexists. reflexivity. Qed.
+
+(** Non-vacuity for a source that already contains a pruned branch: the body of
+    the proof above is narrowed further by pruning its root's other child and,
+    alternatively, the whole root (an ancestor of the pruned branch). *)
+Example C18_premises_satisfiable_narrowing :
+  let leaf1 := Cell false 0 0 [true; false] [] in
+  let leaf2 := Cell false 0 0 [false; true; true] [] in
+  let root := Cell false 0 0 [true] [leaf1; leaf2] in
+  exists body p2 p3,
+    prune sha256 (fun path => match path with [1%nat] => true | _ => false end) [] root = Ok body /\
+    prunable_tree body /\ ~ plain_tree body /\
+    create_proof sha256 (fun path => match path with [0%nat] => true | _ => false end) body = Ok p2 /\
+    create_proof sha256 (fun path => match path with [] => true | _ => false end) body = Ok p3 /\
+    hd_at sha256 body 0 = hd_at sha256 root 0.
+Proof.
+  cbn zeta. eexists. eexists. eexists.
+  split; [vm_compute; reflexivity|].
+  split; [cbn; repeat split; intros; try discriminate; reflexivity|].
+  split; [cbn; intros (_ & _ & ((E & _) & _) & _); discriminate E|].
+  split; [vm_compute; reflexivity|]. split; [vm_compute; reflexivity|].
+  vm_compute. reflexivity.
+Qed.
